@@ -22,6 +22,7 @@ Ok(i) == ~C.prog[i].panic
 Count(op) == Cardinality({i \in DOMAIN C.prog : C.prog[i].op = op /\ Ok(i)})
 Before(i, op) == Cardinality({j \in 1 .. i - 1 : C.prog[j].op = op /\ Ok(j)})
 NImp == Count("add_import_func")
+NImpMem == Count("add_import_memory")                   \* added imported memories come first in the output
 FinalF(f) == f + NImp                                   \* base locals f = 1, 2
 FinalBuilt(i) == 2 + NImp + Before(i, "build") + 1      \* the build op at position i
 CallStr(f) == "Call { function_index: " \o ToString(FinalF(f)) \o " }"
@@ -34,8 +35,11 @@ Want(i) ==
     CASE o.op = "add_import_func" -> [kind |-> "import", content |-> "added.i" \o ToString(i) \o " Func(0)"]
       [] o.op = "add_global" -> [kind |-> "global", content |-> "id=" \o ToString(1 + Before(i, "add_global"))
                                                    \o " I32 shared=false mutable=true init=[Value(I32(7))]"]
-      [] o.op = "add_memory" -> [kind |-> "memory", content |-> "id=" \o ToString(1 + Before(i, "add_memory")) \o " initial=2 maximum=Some(3)"]
+      [] o.op = "add_memory" -> [kind |-> "memory", content |-> "id=" \o ToString(NImpMem + 1 + Before(i, "add_memory")) \o " initial=2 maximum=Some(3)"]
+      [] o.op = "add_import_memory" -> [kind |-> "import", content |-> "added.m" \o ToString(i) \o " Memory(MemoryType { memory64: false, shared: false, initial: 1, maximum: None, page_size_log2: None })"]
       [] o.op = "add_data"   -> [kind |-> "data", content |-> "passive [1, 2]"]
+      \* the parsed module's memory sits behind the added imported memories in the output
+      [] o.op = "add_data_active" -> [kind |-> "data", content |-> "active mem=" \o ToString(NImpMem) \o " off=[Value(I32(16))] [3]"]
       [] o.op = "add_export" -> [kind |-> "export", content |-> "x" \o ToString(i) \o " Func index=" \o ToString(FinalF(2))]
       \* adding a type that an earlier call already added adds nothing: no record is required then
       [] o.op = "add_type"   -> IF Before(i, "add_type") > 0 THEN [kind |-> "none"]
@@ -63,8 +67,8 @@ Matches(r, w, tag) ==
          [] OTHER -> r.kind = w.kind /\ r.content = w.content
 
 KindOps(kind) ==
-    CASE kind = "import" -> Count("add_import_func") [] kind = "global" -> Count("add_global")
-      [] kind = "memory" -> Count("add_memory") [] kind = "data" -> Count("add_data")
+    CASE kind = "import" -> Count("add_import_func") + Count("add_import_memory") [] kind = "global" -> Count("add_global")
+      [] kind = "memory" -> Count("add_memory") [] kind = "data" -> Count("add_data") + Count("add_data_active")
       [] kind = "export" -> Count("add_export") [] kind = "func" -> Count("build")
       [] kind = "type" -> Count("add_type") + Count("build")
       [] OTHER -> 1000
